@@ -59,6 +59,12 @@ def worldOp (op : String) (a : List Int) : Option String :=
                 let c' : Ctx := { c with b := { c.b with emissionsMint := 1 }, emisMint := if amount = 1 then 1 else 2 }
                 some (showResB ((World.withdrawEmissions c').map fun o =>
                   s!"{showSlots7 o.slots} {showBank o.books} {o.books.lastUpdate} {o.tokens} {o.window.dailyLimit} {o.window.withdrawnToday} {o.window.lastReset}"))
+              else if op == "wd.accrue" then
+                some (showResB ((World.accrueIx c).map fun b => s!"{showBank b} {b.lastUpdate}"))
+              else if op == "wd.collect" then
+                -- (amount field: 1 = the fee ATA passed is the global fee wallet's for the bank's mint, 0 = another account)
+                some (showResB ((World.collectFeesIx c (amount == 1)).map fun o =>
+                  s!"{showBank o.books} {o.books.lastUpdate} {o.toInsurance} {o.toGroup} {o.toProgram}"))
               else if op == "wd.endfl" then
                 some (showResB ((World.endFlashloan c amount.toNat).map fun f => s!"{f}"))
               else if op == "wd.bkr" then
